@@ -36,6 +36,10 @@ var blockNames = map[commonmark.BlockKind]string{
 }
 
 func fmtModelSkel(sb *strings.Builder, n *skelNode) {
+	if n.K == "label" || n.K == "dest" || n.K == "title" {
+		fmt.Fprintf(sb, "(%s %d %d)", n.K, n.S, n.E)
+		return
+	}
 	a := n.A
 	if n.K != "atx" && n.K != "setext" && n.K != "item" {
 		a = 0
@@ -81,6 +85,9 @@ func fmtRealSkel(sb *strings.Builder, src []byte, base int, b *commonmark.Block)
 	for i := 0; i < b.ChildCount(); i++ {
 		if cb := b.Child(i).Block(); cb != nil {
 			fmtRealSkel(sb, src, base, cb)
+		} else if in := b.Child(i).Inline(); in != nil && k == "refdef" {
+			name := map[commonmark.InlineKind]string{commonmark.LinkLabelKind: "label", commonmark.LinkDestinationKind: "dest", commonmark.LinkTitleKind: "title"}[in.Kind()]
+			fmt.Fprintf(sb, "(%s %d %d)", name, base+in.Span().Start, base+in.Span().End)
 		}
 	}
 	sb.WriteString(")")
